@@ -52,6 +52,10 @@ def battery():
                                    Metric(name="share2", type="ratio", extends="share", numerator="total", denominator="n"),
                                    Metric(name="net", type="derived", sql="total - n"), Metric(name="net2", extends="net", type="derived", sql="total - n - n"),
                                    Metric(name="big", agg="sum", sql="amount", extends="total", filters=["amount > 10"])]))
+        # names longer than the identifier limits of some dialects (63 / 128 characters), compiled for those dialects below
+        long_m, long_d = "total_amount_of_all_completed_orders_in_the_reporting_currency_after_refunds_and_discounts", "customer_segment_as_assigned_by_the_quarterly_marketing_review_process_2024"
+        L.add_model(Model(name="wide", table="wide", primary_key="id", dimensions=[Dimension(name=long_d, type="categorical", sql="seg"), Dimension(name="day", type="time", granularity="day", sql="created")],
+                          metrics=[Metric(name=long_m, agg="sum", sql="amount"), Metric(name="n", agg="count"), Metric(name=long_m + "_share", type="ratio", numerator=long_m, denominator="n")]))
         L.add_metric(Metric(name="cross", type="derived", sql="orders.total + customers.total + items.total"))
         L.add_metric(Metric(name="cross2", type="derived", sql="returns.n / orders.n"))
         L.add_metric(Metric(name="cross_ratio", type="ratio", numerator="items.total", denominator="orders.total"))
@@ -100,6 +104,12 @@ def battery():
         dict(metrics=["net2"], dimensions=["inh.kind"]),
         dict(metrics=["inh.net", "inh.share"], dimensions=[]),
     ]
+    long_m, long_d = "total_amount_of_all_completed_orders_in_the_reporting_currency_after_refunds_and_discounts", "customer_segment_as_assigned_by_the_quarterly_marketing_review_process_2024"
+    for dialect in ("postgres", "bigquery", "snowflake", "clickhouse", "spark"):
+        # other dialects: over-long names, a running total, a fan-out query (the symmetric form is dialect specific)
+        queries.append(dict(metrics=["wide." + long_m, "wide." + long_m + "_share"], dimensions=["wide." + long_d, "wide.day__month"], dialect=dialect))
+        queries.append(dict(metrics=["orders.total", "orders.avg_amt"], dimensions=["items.kind"], dialect=dialect))
+        queries.append(dict(metrics=["running"], dimensions=["orders.day__week"], dialect=dialect))
     return layer, queries
 
 
